@@ -127,7 +127,9 @@ def run_c04(tier):
     run.merge(acc.result())
     if tier == "thorough" and gen is not None:
         names = sorted(defs)
-        names = [n for n in names if not n.startswith("Metadata")]  # generate_index asserts Metadata v11 exists
+        # generate_index asserts Metadata v11 exists and kio.static.protocol imports the header modules, so
+        # those four definitions cannot be removed without the generator (legitimately) failing
+        names = [n for n in names if not n.startswith("Metadata") and n not in ("RequestHeader.json", "ResponseHeader.json")]
         for name, d, errtxt in pmap(_regen_without, names, procs=8):
             run.add("evaluations")
             run.add("regenerations_with_one_definition_removed")
